@@ -5,13 +5,19 @@
 set -u
 tag=$1; defprops=$2; shift 2
 wt=/tmp/wt-$tag
-git -C /repo worktree remove --force $wt >/dev/null 2>&1; rm -rf $wt
-git -C /repo worktree add --detach $wt HEAD >/dev/null 2>&1 || { echo "worktree failed"; exit 2; }
-for spec in "$@" CLEAN; do
+# KEEP=1: reuse (and keep) a long-lived scratch worktree so that harness builds stay incremental across patches
+if [ "${KEEP:-0}" = 1 ] && [ -d $wt ]; then
+  git -C $wt checkout -q -- . ; git -C $wt clean -fdq; git -C $wt checkout -q --detach $(git -C /repo rev-parse HEAD)
+else
+  git -C /repo worktree remove --force $wt >/dev/null 2>&1; rm -rf $wt
+  git -C /repo worktree add --detach $wt HEAD >/dev/null 2>&1 || { echo "worktree failed"; exit 2; }
+fi
+last=CLEAN; [ "${NOCLEAN:-0}" = 1 ] && last=""
+for spec in "$@" $last; do
   patch=${spec%@*}; props=$defprops
   [ "$spec" != "$patch" ] && props=${spec#*@}
   if [ "$patch" != CLEAN ]; then
-    git -C $wt apply "$patch" || { echo "PATCH DID NOT APPLY: $patch"; continue; }
+    git -C $wt apply "$patch" 2>/dev/null || git -C $wt apply -3 "$patch" || { echo "PATCH DID NOT APPLY: $patch"; continue; }
   fi
   for p in ${props//,/ }; do
     out=/tmp/mut-$tag-$p-$(basename $patch .diff).out
@@ -20,6 +26,7 @@ for spec in "$@" CLEAN; do
   done
   git -C $wt checkout -- . ; git -C $wt clean -fdq
 done
+[ "${KEEP:-0}" = 1 ] && exit 0
 h=$(python3 -c "import hashlib;print(hashlib.sha1('$wt'.encode()).hexdigest()[:8])")
 git -C /repo worktree remove --force $wt; git -C /repo worktree prune
 rm -rf /verif/.cache/target-$h /verif/.cache/harness-$h /verif/.cache/scratch-$h
